@@ -5,6 +5,11 @@ from vlib import log
 
 def replay(run, path):
     r = json.load(open(path))
+    if r.get("detail", {}).get("kind") == "race-detector-report":
+        # a race report is re-sought by re-running the race-detector rounds with the recorded seed
+        import check
+        run.seed = r["case"].get("gen_seed", run.seed)
+        return check.PROPS[run.pid](run)
     how = r["how"]
     run.build_harness()
     ok, detail = run.reproduce("replay", how["hmodule"], r["case"], how["tmodule"], how["cfg_tmpl"],
